@@ -500,8 +500,16 @@ fn parse_inner<J: Jet>(
                 }
             };
 
-            let name = Option::<Arc<str>>::clone(&data.node.name)
-                .unwrap_or_else(|| Arc::from(namer.assign_name(inner.as_ref()).as_str()));
+            let name = Option::<Arc<str>>::clone(&data.node.name).unwrap_or_else(|| loop {
+                let fresh: Arc<str> = Arc::from(namer.assign_name(inner.as_ref()).as_str());
+                // Holes are named after themselves and live in their own namespace.
+                // Every other generated name must differ from the user's names.
+                if matches!(inner, node::Inner::Witness(WitnessOrHole::TypedHole(..)))
+                    || !resolved_map.contains_key(&fresh)
+                {
+                    break fresh;
+                }
+            });
 
             let node = NamedConstructNode::new(
                 &inference_context,
